@@ -374,6 +374,30 @@ theorem mapM_option_forall' {α β : Type} (f : α → Option β) (P : β → Pr
         · exact hf a _ hfa
         · exact mapM_option_forall' f P hf l xs hl b hm
 
+theorem mapM_option_pairs {α β : Type} (f : α → Option β) :
+    ∀ (l : List α) (r : List β), l.mapM f = some r →
+      r.length = l.length ∧ ∀ p, p ∈ l.zip r → f p.1 = some p.2
+  | [], r, h => by
+    simp only [List.mapM_nil, pure, Option.some.injEq] at h
+    subst h; simp
+  | a :: l, r, h => by
+    rw [List.mapM_cons] at h
+    cases hfa : f a with
+    | none => simp [hfa] at h
+    | some x =>
+      cases hl : l.mapM f with
+      | none => simp [hfa, hl] at h
+      | some xs =>
+        simp only [hfa, hl, bind, Option.bind, pure, Option.some.injEq] at h
+        subst h
+        obtain ⟨i1, i2⟩ := mapM_option_pairs f l xs hl
+        refine ⟨by simp [i1], ?_⟩
+        intro p hp
+        simp only [List.zip_cons_cons, List.mem_cons] at hp
+        rcases hp with rfl | hp
+        · exact hfa
+        · exact i2 p hp
+
 theorem mapRes_toOption {α β : Type} (f : α → Res β) : ∀ (l : List α),
     (FromDom.mapRes f l).toOption = l.mapM (fun a => (f a).toOption)
   | [] => rfl
